@@ -562,6 +562,26 @@ func c12Monitor(args []string) int {
 				rep.Violate("ucinewgame-differs-from-fresh-engine", in(), "after ucinewgame: "+strip(a)+" ; fresh engine: "+strip(b))
 			}
 		}
+		// an infinite search that has nothing left to search (depth limit reached) idles until stop; however long
+		// the GUI takes to send it, the answer to stop is prompt
+		if rng.Chance(20) {
+			before := s.count("bestmove")
+			do("position startpos")
+			do([]string{"go infinite depth 1", "go ponder depth 1", "go infinite nodes 30"}[rng.Intn(3)])
+			rep.Cases++
+			rep.Stats["long_idle_before_stop"]++
+			time.Sleep(time.Duration(2500+rng.Intn(1500)) * time.Millisecond)
+			if s.count("bestmove") != before {
+				rep.Violate("bestmove-before-stop", in(), "an infinite/ponder search with a reached limit answered without stop")
+			}
+			t0 := time.Now()
+			do("stop")
+			if !s.waitCount("bestmove", before+1, 15*time.Second) {
+				rep.Violate("no-bestmove", in(), "after stop of an idling infinite search")
+			} else if el := time.Since(t0); el > 1500*time.Millisecond {
+				rep.Violate("stop-not-prompt", in(), fmt.Sprintf("bestmove %s after stop (the search had been idle for seconds)", el))
+			}
+		}
 		// the GUI answers a bestmove while the line is still being written: the next search must not
 		// inherit anything from the one that is just reporting
 		if rng.Chance(60) {
